@@ -385,6 +385,22 @@ pub fn hand_rows() -> Vec<(&'static str, Vec<[f32; 4]>)> {
             ],
         ),
         ("wide4", vec![[-8.0, 2.0, 1.0, 0.0], [1.5, -7.25, 0.0, 1.0], [0.0, 1.0, -9.5, 2.0], [2.0, 0.0, 1.0, -6.0]]),
+        // rows whose entries are ALL positive (the per-row offset is then the negative of a positive minimum),
+        // with four decimals so that several refinement steps are needed
+        ("positive4", vec![[0.1234, 1.5678, 2.3456, 0.9876], [3.1415, 0.2718, 1.4142, 1.7320], [0.5772, 2.2360, 0.6931, 1.6180], [1.2020, 0.9159, 2.6457, 0.3010]]),
+        (
+            "positive6",
+            vec![
+                [0.1234, 1.5678, 2.3456, 0.9876],
+                [3.1415, 0.2718, 1.4142, 1.7320],
+                [0.5772, 2.2360, 0.6931, 1.6180],
+                [1.2020, 0.9159, 2.6457, 0.3010],
+                [2.0794, 1.0986, 0.4342, 1.9459],
+                [0.7071, 1.3247, 2.5029, 0.1100],
+            ],
+        ),
+        // one all-positive and one all-negative row among mixed ones
+        ("signrows4", vec![[0.3141, 1.2718, 2.1414, 0.7320], [-0.5772, -2.2360, -0.6931, -1.6180], [1.2020, -0.9159, 0.6457, -0.3010], [0.0794, 1.0986, -0.4342, 0.9459]]),
     ]
 }
 
@@ -443,7 +459,7 @@ pub struct Entry {
 ///
 /// * `logodds`: for every width M in `widths`, `windows(M)` cyclic windows of COUNT_ROWS
 ///   x pseudocounts x the 4 background configurations;
-/// * `hand`:    15 hand matrices x 6 wildcard/background configurations.
+/// * `hand`:    18 hand matrices x 6 wildcard/background configurations.
 ///
 /// The index is the position in this list, which is the same on every shard.
 pub fn menu(widths: &[usize], windows: &dyn Fn(usize) -> usize, pseudos: &[f32]) -> Vec<Entry> {
